@@ -85,7 +85,9 @@ inductive Site where
   the site no longer exists in the code or the model). -/
   | enumArgument
   /-- mod.rs:195 `edge_arguments.insert_or_error(..).unwrap()` (duplicated parameter name in the
-  schema's edge definition) — **N-5** when the schema declares a parameter twice. -/
+  schema's edge definition) — **N-5** when the schema declares a parameter twice (F-C10-5; since its
+  repair `Schema::new` rejects such a schema, so the site needs a `Schema` that validation cannot
+  produce). -/
   | paramDuplicate
   /-- mod.rs:309 `root_parameters.unwrap()`. -/
   | rootParametersUnwrap
